@@ -50,19 +50,16 @@ def variant_env(v):
 
 
 def draw_variants(seed, n):
+    """Allocator states.  glibc fills malloc'ed memory with (MALLOC_PERTURB_ ^ 0xFF) and freed memory
+    with the byte itself.  Bytes are drawn from a curated list whose *allocation* patterns read as
+    large-magnitude numbers in every dtype the kernels use (a pattern such as 0x99.. is ~1e-23 as
+    float32 and would be absorbed by rounding): 128 -> 0x7F.. (3.4e38 / 1.4e306 / 32639),
+    180 -> 0x4B.. (1.3e7), 54 -> 0xC9.. (-1.7e6), 170 -> 0x55.. (1.5e13), 192 -> 0x3F.. (0.75),
+    64 -> 0xBF.. (-0.75), 1 -> 0xFE.. (-1.7e38, ints -258)."""
     rng = random.Random(f"{seed}/c14/variants")
-    vs = ["unset"]
-    pool = list(range(1, 255))
+    pool = [180, 54, 170, 192, 64, 1]
     rng.shuffle(pool)
-    # glibc fills with the complement on malloc and the byte on free; keep the bytes far apart
-    a = pool[0]
-    vs.append(a)
-    for b in pool[1:]:
-        if len(vs) >= n:
-            break
-        if all(isinstance(x, str) or abs(b - x) > 16 for x in vs):
-            vs.append(b)
-    return vs
+    return (["unset", 128] + pool)[: max(2, n)]
 
 
 def run_workers(seed, conf, tmp, repo, nproc):
@@ -117,30 +114,65 @@ def regenerate_call(seed, group_names, i, nb_cap):
     return name, mode, d, args_to_json(d["args"])
 
 
+def _single_call_replay(payload, repo, tmp):
+    path = os.path.join(tmp, "call.json")
+    with open(path, "w") as f:
+        json.dump(payload, f)
+    outs = {}
+    for v in payload["variants"]:
+        r = subprocess.run([PY, "-m", "sim.c14worker", "--replay-single", path, "--repo", repo], env=variant_env(v), cwd=VERIF, capture_output=True, text=True, timeout=1200)
+        line = [l for l in r.stdout.splitlines() if l.startswith("RESULT ")]
+        if not line:
+            return None, f"replay worker failed under variant {v}: {r.stderr[-800:]}"
+        outs[str(v)] = json.loads(line[0][7:])
+    want = payload["violation"]["class"]
+    for v, o in outs.items():
+        for vclass, msg in o["violations"]:
+            if vclass == want:
+                return True, f"single call under allocator state {v}: {vclass}: {msg}"
+    keys = {(o["sha"], o["exc"]) for o in outs.values()}
+    if len(keys) > 1 and want in ("output-depends-on-allocator-state", "output-not-repeatable", "output-depends-on-buffer-content"):
+        return True, f"single call: outputs differ across allocator states {sorted(outs)}: " + json.dumps({v: [o['sha'], o['exc']] for v, o in outs.items()})
+    return False, f"single call not reproduced; observed {outs}"
+
+
+def _history_replay(payload, repo, tmp):
+    """Fallback: re-execute the group's history up to the failing position under every state."""
+    upto = int(payload.get("upto", payload.get("index", 0)))
+    g = payload["group"]
+    recs = {}
+    want = payload["violation"]["class"]
+    for v in payload["variants"]:
+        out = os.path.join(tmp, f"hist_{v}.json")
+        cmd = [PY, "-m", "sim.c14worker", "--group", str(g), "--seed", str(payload["seed"]), "--budget", "100000", "--max-calls", str(upto + 1), "--out", out, "--repo", repo]
+        r = subprocess.run(cmd, env=variant_env(v), cwd=VERIF, capture_output=True, text=True, timeout=3000)
+        if r.returncode or not os.path.exists(out):
+            return None, f"history replay failed under variant {v}: {r.stdout[-400:]}{r.stderr[-400:]}"
+        with open(out) as f:
+            d = json.load(f)
+        for viol in d["violations"]:
+            if viol["class"] == want and viol["kernel"] == payload["kernel"]:
+                return True, f"history prefix (group {g}, {upto + 1} entries) under allocator state {v}: {want}: {viol['message']}"
+        recs[str(v)] = {r_["i"]: (r_.get("sha"), r_.get("exc")) for r_ in d["records"]}
+    idx = payload.get("index")
+    keys = {recs[v].get(idx) for v in recs}
+    if len(keys) > 1:
+        return True, f"history prefix: call #{idx} differs across allocator states {sorted(recs)}"
+    return False, "history prefix not reproduced"
+
+
 def replay_payload(payload, repo):
-    """Run the recorded call under every recorded allocator state; returns (reproduced, text)."""
+    """Re-run the recorded call under every recorded allocator state (single call first; if the
+    violation needs the heap state its history created, the history prefix)."""
     tmp = tempfile.mkdtemp(prefix="c14replay_", dir=os.environ.get("VERIF_TMP", "/var/tmp"))
     try:
-        path = os.path.join(tmp, "call.json")
-        with open(path, "w") as f:
-            json.dump(payload, f)
-        outs = {}
-        for v in payload["variants"]:
-            r = subprocess.run([PY, "-m", "sim.c14worker", "--replay-single", path, "--repo", repo], env=variant_env(v), cwd=VERIF, capture_output=True, text=True, timeout=1200)
-            line = [l for l in r.stdout.splitlines() if l.startswith("RESULT ")]
-            if not line:
-                return None, f"replay worker failed under variant {v}: {r.stderr[-800:]}"
-            outs[str(v)] = json.loads(line[0][7:])
-        want = payload["violation"]["class"]
-        for v, o in outs.items():
-            for vclass, msg in o["violations"]:
-                if vclass == want:
-                    return True, f"under allocator state {v}: {vclass}: {msg}"
-        if want == "output-depends-on-allocator-state":
-            keys = {(o["sha"], o["exc"]) for o in outs.values()}
-            if len(keys) > 1:
-                return True, f"outputs differ across allocator states: {outs}"
-        return False, f"not reproduced; observed {outs}"
+        ok, text = _single_call_replay(payload, repo, tmp)
+        if ok or ok is None:
+            return ok, text
+        ok2, text2 = _history_replay(payload, repo, tmp)
+        if ok2 is None:
+            return None, text2
+        return ok2, (text2 if ok2 else text + " | " + text2)
     finally:
         shutil.rmtree(tmp, ignore_errors=True)
 
@@ -230,7 +262,7 @@ def report(seed, tier, conf, variants, done, errors, wall, repo, write_ev=True):
             allv.append((viol["i"], g, v, viol))
     allv.sort(key=lambda x: (x[0], x[1], str(x[2])))
     for i, g, v, viol in allv:
-        add(viol["kernel"], viol["class"], viol["message"], {"key": f"{seed}/c14/g{g}/{i}", "group": g, "index": i, "perturb": v, "args": viol["args"], "outs": viol["outs"], "poisons": viol["poisons"], "size_class": viol["size_class"], "mode": viol["mode"]})
+        add(viol["kernel"], viol["class"], viol["message"], {"key": f"{seed}/c14/g{g}/{i}", "group": g, "index": i, "perturb": v, "args": viol["args"], "outs": viol["outs"], "poisons": viol["poisons"], "size_class": viol["size_class"], "mode": viol["mode"], "upto": viol.get("upto", i)})
     # cross-process comparison (A2-ii)
     compared = 0
     for g in range(len(GROUPS)):
